@@ -38,6 +38,26 @@ CHECKS = {
             'batch is open, (ii) have announced what a rejected update applied, (iii) answer a fixed probe exactly like a freshly built twin.',
             'exhaustive fault enumeration (positions x programs) with a differential probe against a fresh twin',
             BASE_NOTE),
+    'C15': ('exploration', 'DESIGN.md §3 C15',
+            'For 18 serializable parameter types a boundary-rich value list (extreme ints/floats, -0.0, escape-laden and non-ASCII strings, empty '
+            'containers, microseconds, years 1/999/9999, date-only and datetime ranges, None) x class/instance level x {all, subset=, '
+            'serialize_value/deserialize_value} is pushed through the real serializer; the text must be standard JSON and the rebuilt object must hold '
+            'values equal and of identical Python type; quick adds every unordered, thorough every ordered pair of types in one class.',
+            'bounded-exhaustive enumeration of round trips through the real serializer',
+            BASE_NOTE),
+    'C16': ('exploration', 'DESIGN.md §3 C16',
+            'For every constraint configuration of the schema-capable types (bounds x inclusivity, lengths, item types, object lists incl. empty and '
+            'None-containing, class_, allow_None) the generated schema is meta-validated (Draft 7) and every listed valid state, class and instance '
+            'level, must validate against it; for Number/Integer every out-of-bounds probe (incl. nextafter and exactly-on-exclusive-bound) must be rejected.',
+            'bounded-exhaustive enumeration of configurations x states, decided by the jsonschema Draft-7 validator',
+            BASE_NOTE + ' Trusted: jsonschema 4.26 (vendored offline by setup.sh).'),
+    'C20': ('exploration', 'DESIGN.md §3 C20',
+            'For four class shapes (default constructor, positional+keyword custom constructor, keyword whose signature default differs from the '
+            'Parameter default, nested Parameterized values) every listed value of every parameter (negative/huge ints, +-inf, escapes, bytes, None, '
+            'empty and one-element tuples, nesting, explicit names) and all-parameters-at-once states are printed with script_repr() and .param.pprint(); '
+            'the text is executed in a namespace holding only its own imports and the rebuilt object compared recursively.',
+            'bounded-exhaustive enumeration of states; printed text executed and compared',
+            BASE_NOTE),
     'C18': ('model_checking', 'DESIGN.md §3 C18',
             'Every mutation history up to the depth bound over list- and dict-declared Selector/ListSelector '
             '(class and instance level) is executed on the real ListProxy and compared after every step with a '
